@@ -604,7 +604,7 @@ static void run_seq(const Case& c) {
   for (const auto& it : r.named) used_named.emplace_back(it.second.size(), U_UNREAD);
   Args a(tokens);
   std::vector<uint64_t> addressed(tt.size(), 0);
-  bool absent_twice = false, multi_then_scalar_absent = false;
+  bool absent_twice = false, multi_then_scalar_absent = false, partial_multi = false;
   std::vector<uint8_t> absent_multi_seen(tt.size(), 0);
 
   for (size_t k = 0; k < c.n.size(); k++) {
@@ -669,10 +669,11 @@ static void run_seq(const Case& c) {
       if (g <= SG_MULTI_F) absent_multi_seen[target] = 1;
       else if (absent_multi_seen[target]) multi_then_scalar_absent = true;
     }
-    auto mark = [&](uint8_t state) {
+    // marks the first `upto` instances of the target (all of them by default)
+    auto mark = [&](uint8_t state, size_t upto = SIZE_MAX) {
       if (!used) return;
-      for (auto& u : *used)
-        if (u != U_READ) u = state;
+      for (size_t j = 0; j < used->size() && j < upto; j++)
+        if ((*used)[j] != U_READ) (*used)[j] = state;
     };
     const char* absent_sig = "seq-absent";
     std::string gname = kSeqGetterNames[g];
@@ -701,17 +702,31 @@ static void run_seq(const Case& c) {
       }
       return o;
     };
-    auto judge_typed = [&](Kind o, const std::string& th, bool values_ok) {
+    // A typed multi getter that throws has looked at the instances up to the one whose conversion failed and at nothing behind it:
+    // the instances behind the first text that must be rejected (when the getter threw and no text must be rejected: behind the
+    // last unsettled one) were never read by that call and keep their state; those before it and the failing one are unknown.
+    auto throw_bound = [&](auto&& kind_of, const std::string& th) -> size_t {
+      if (th.empty()) return SIZE_MAX;
+      size_t last_either = SIZE_MAX;
+      for (size_t j = 0; j < vals.size(); j++) {
+        Kind kd = kind_of(vals[j]);
+        if (kd == K_INVALID) return j + 1;
+        if (kd == K_EITHER) last_either = j;
+      }
+      return last_either == SIZE_MAX ? SIZE_MAX : last_either + 1;
+    };
+    auto judge_typed = [&](Kind o, const std::string& th, bool values_ok, size_t bound = SIZE_MAX) {
+      if (bound < vals.size()) partial_multi = true;
       if (o == K_VALUE) {
         VCHECK(th.empty(), cat("seq-rejects:", gname), what, " threw ", th, " but every value is a complete literal that fits", fail_ctx());
         VCHECK(values_ok, cat("seq-value:", gname), what, " returned a wrong value", fail_ctx());
         mark(U_READ);
       } else if (o == K_INVALID) {
         VCHECK(th == "invalid_argument", cat("seq-accepts:", gname), what, th.empty() ? " returned" : cat(" threw ", th), " but must throw invalid_argument", fail_ctx());
-        mark(U_UNKNOWN);
+        mark(U_UNKNOWN, bound);
       } else {
         VCHECK(th.empty() || th == "invalid_argument", cat("seq-unsettled-throws:", gname), what, " threw ", th, fail_ctx());
-        mark(U_UNKNOWN);
+        mark(U_UNKNOWN, bound);
       }
     };
 
@@ -737,7 +752,7 @@ static void run_seq(const Case& c) {
               ok &= (got[j] == static_cast<T>(b));
             }
           if (!present) VCHECK(th.empty() && got.empty(), absent_sig, what, ": ", th, " size ", got.size(), fail_ctx());
-          else judge_typed(o, th, ok);
+          else judge_typed(o, th, ok, throw_bound([&](const std::string& v) { uint64_t b; return int_kind(v, b); }, th));
         });
         break;
       }
@@ -753,7 +768,7 @@ static void run_seq(const Case& c) {
             ok &= same_double(got[j], l);
           }
         if (!present) VCHECK(th.empty() && got.empty(), absent_sig, what, ": ", th, " size ", got.size(), fail_ctx());
-        else judge_typed(o, th, ok);
+        else judge_typed(o, th, ok, throw_bound([&](const std::string& v) { c17::FloatLit l; return flt_kind(v, l); }, th));
         break;
       }
       case SG_STR:
@@ -839,8 +854,8 @@ static void run_seq(const Case& c) {
   }
   bool twice = false;
   for (uint64_t n : addressed) twice |= (n >= 2);
-  if (twice) ctx().nontrivial_case();
-  ctx().cls(multi_then_scalar_absent ? "seq:scalar getter after a multi getter on the same absent name" : absent_twice ? "seq:an absent target addressed twice" : twice ? "seq:a supplied target addressed twice" : "seq:every target addressed once");
+  if (twice || partial_multi) ctx().nontrivial_case();
+  ctx().cls(partial_multi ? "seq:a typed multi getter failed on a non-last instance of a repeated option" : multi_then_scalar_absent ? "seq:scalar getter after a multi getter on the same absent name" : absent_twice ? "seq:an absent target addressed twice" : twice ? "seq:a supplied target addressed twice" : "seq:every target addressed once");
 }
 
 // ---------------------------------------------------------------- generators
@@ -1126,10 +1141,38 @@ static Case gen_seq() {
       default: c.S(vg::pick<std::string>({"17", "--x=3", "--n=12", "--n=7", "-n", "-xy", "--y", "0", "--z=abc", "--x=0x10", "--n=-5", "--n=300", "--f=1.5", "--x=1e3", "-5", "4.0", "--n=", "--x= 7", "--n=08", "--zz=1"})); break;
     }
   }
+  // a quarter of the cases: one option repeated 2..5 times whose values mix numerals with texts that a typed getter rejects
+  // (or that fit only some types), other tokens in between, and a typed multi getter addressed to it early in the sequence
+  bool repeated = vg::chance(1, 4);
+  std::string rep_name;
+  if (repeated) {
+    static const std::vector<std::string> good = {"1", "3", "12", "0", "-5", "0x10", "7", "100"};
+    static const std::vector<std::string> odd = {"x", "", "abc", "1.5", "300", "70000", "99999999999", "1e3", " 7", "7 ", "08", "-", "0x", "--n", "4294967296", "-129", "nan"};
+    rep_name = vg::pick<std::string>({"n", "x", "f", "name"});
+    size_t reps = 2 + vg::below(4);
+    std::vector<std::string> toks;
+    for (size_t i = 0; i < reps; i++) {
+      toks.push_back("--" + rep_name + "=" + (vg::chance(2, 3) ? vg::pick(good) : vg::pick(odd)));
+      if (vg::chance(1, 4) && !c.s.empty()) {
+        toks.push_back(c.s.back());
+        c.s.pop_back();
+      }
+    }
+    for (auto& t : c.s) toks.push_back(t);
+    c.s = toks;
+  }
   c17::RefArgs r = c17::classify(c.s);
   SeqTargets tt = seq_targets(r);
   size_t nops = 1 + vg::scaled(9);
   uint64_t focus = vg::below(tt.size());
+  if (repeated) {
+    for (size_t t = 0; t < tt.supplied; t++)
+      if (tt.names[t] == rep_name) focus = t;
+    uint64_t g = vg::chance(3, 4) ? SG_MULTI_I : SG_MULTI_F;
+    if (vg::chance(1, 3)) c.N(seq_op(vg::below(tt.size()), vg::below(SG_ASSERT), 6, 0));
+    c.N(seq_op(focus, g, vg::chance(1, 2) ? 6 : vg::below(8), vg::chance(2, 3) ? 0 : vg::below(4)));
+    if (vg::chance(1, 2)) nops = vg::below(3);
+  }
   for (size_t i = 0; i < nops; i++) {
     // most operations go to one or two targets, so that the same name / index is asked several times in different ways
     uint64_t target = vg::chance(3, 5) ? focus : vg::below(tt.size());
@@ -1434,7 +1477,8 @@ static void enum_unused(Enum& e) {
 
 // every ordered pair (and, for the absent names, triple) of getter calls on one object
 static void enum_seq(Enum& e) {
-  static const std::vector<std::vector<std::string>> lists = {{}, {"--x=1"}, {"--x=1", "--x=2"}, {"pos", "--y=v=w"}, {"-ab", "5"}, {"--n=12", "--x"}, {"--n=abc", "7"}};
+  static const std::vector<std::vector<std::string>> lists = {{}, {"--x=1"}, {"--x=1", "--x=2"}, {"pos", "--y=v=w"}, {"-ab", "5"}, {"--n=12", "--x"}, {"--n=abc", "7"},
+      {"--n=1", "--n=x", "--n=3"}, {"--n=x", "--n=1"}, {"--n=1", "--n=2", "--n=1.5", "pos"}, {"--x=1", "--n=7", "--x=", "--n=8"}};
   uint64_t idx = 0;
   for (const auto& toks : lists) {
     c17::RefArgs r = c17::classify(toks);
@@ -1473,7 +1517,8 @@ static void enum_seq(Enum& e) {
         }
     }
   }
-  e.complete("7 token lists (empty; one / repeated option; positional + option; flag group + positional; option without value; non-numeric value) x every ordered pair of "
+  e.complete("11 token lists (empty; one / repeated option; positional + option; flag group + positional; option without value; non-numeric value; an option repeated 2..3 times "
+             "whose first / middle / last value is not an integer, alone, with a positional and interleaved with a second repeated option) x every ordered pair of "
              "getter calls over {every supplied name, 3 names that were not supplied, every positional index up to 2 past the end} x the 10 getter forms "
              "(get_multi<string/int32/double>, get<string> with and without flag, get<bool>, get<int32> / get<double> with and without default) and "
              "assert_none_unused; every ordered triple of the 10 getter forms on one absent name and on the positional index past the end");
